@@ -50,6 +50,10 @@ func NewQuery(queryString string) (*Query, error) {
 	}
 
 	if query.stmt.Condition != nil {
+		// BinaryExpr.String does not parenthesize, keep an OR condition together under the AND.
+		if be, ok := query.stmt.Condition.(*influxql.BinaryExpr); ok && be.Op == influxql.OR {
+			query.stmt.Condition = &influxql.ParenExpr{Expr: be}
+		}
 		query.stmt.Condition = &influxql.BinaryExpr{
 			Op:  influxql.AND,
 			LHS: query.stmt.Condition,
